@@ -865,7 +865,12 @@ found:
 			if escape {
 				// Continuation line - remove \ then continue
 				if c == '\n' {
-					buf.Truncate(buf.Len() - 1)
+					if rawString {
+						// in a raw string the backslash and the newline both stay
+						_, _ = buf.WriteRune(c)
+					} else {
+						buf.Truncate(buf.Len() - 1)
+					}
 					goto readMore
 				}
 				_, _ = buf.WriteRune(c)
